@@ -685,7 +685,7 @@ func checkWLRecipeCtor(p *core.Program, r *core.Report) {
 	} else {
 		checkCtor(p, r, fn, "WLRecipe", map[string]func(ssa.Value) (bool, string){
 			"Length": func(v ssa.Value) (bool, string) { return v == paramOrNil(fn, 0), "must be the length parameter" },
-			"list":   func(v ssa.Value) (bool, string) { return v == paramOrNil(fn, 1), "must be the word-list parameter" },
+			wlRecipeListField(p): func(v ssa.Value) (bool, string) { return v == paramOrNil(fn, 1), "must be the word-list parameter" },
 			"Capitalize": func(v ssa.Value) (bool, string) {
 				s, ok := core.ConstString(v)
 				return ok && s == "none", "must be CSNone (\"none\")"
